@@ -530,7 +530,9 @@ class LanguageGraph():
                 rh_target_asset, rh_dep_chain, _ = self.process_step_expression(
                     lang, target_asset, dep_chain, step_expression['rhs'])
 
-                if not lh_target_asset.get_all_common_superassets(rh_target_asset):
+                common_superassets = \
+                    lh_target_asset.get_all_common_superassets(rh_target_asset)
+                if not common_superassets:
                     logger.error(
                         "Set operation attempted between targets that"
                         " do not share any common superassets: %s and %s!",
@@ -538,12 +540,18 @@ class LanguageGraph():
                     )
                     return (None, None, None)
 
+                # The assets produced by a set operation can come from either
+                # side, so the target is the closest common super asset.
+                new_target_asset = next(asset for asset in \
+                    lh_target_asset.get_all_superassets() \
+                    if asset.name in common_superassets)
+
                 new_dep_chain = DependencyChain(
                     type = step_expression['type'],
                     next_link = None)
                 new_dep_chain.left_chain = lh_dep_chain
                 new_dep_chain.right_chain = rh_dep_chain
-                return (lh_target_asset,
+                return (new_target_asset,
                     new_dep_chain,
                     None)
 
